@@ -61,11 +61,11 @@ add("C06", ["v_codec", "v_schemacodec"], ["mal_"],
     level_text="For fixed-size targets every input of every length up to the encoded size is covered (Kani, complete): no panic, no overflow, no memory-safety failure, returned values valid (bool/char bit patterns, enum tags), consumed length consistent; bulk paths of Vec/array/ArrayVec with arbitrary declared lengths; SystemTime/Duration arithmetic.",
     level_note="Variable-size targets (String, maps, schema bytes, BitVec) are not covered; stack exhaustion not decidable.",
     technique="Kani harnesses over fully symbolic input bytes", trusted_base=TB)
-add("C07", ["v_codec"], ["trunc_"],
+add("C07", ["v_codec", "v_crypto"], ["trunc_"],
     level_text="lemma_prefix (Verus): no strict prefix of an encoding is accepted, generically for the codec impls under contract; Kani: for each container-family type, every cut offset of every saved schema-less file is rejected (symbolic value and cut).",
     level_note="Compressed / encrypted containers not covered.",
     technique="Verus lemma over decoder contracts; Kani truncation harnesses", trusted_base=TB)
-add("C08", ["v_codec"], ["shortw_", "chunk1_", "chunk3_"],
+add("C08", ["v_codec", "v_crypto"], ["shortw_", "chunk1_", "chunk3_"],
     level_text="Every write_*/serialize under Verus contract has the Err-clause old ⊑ new ⊑ old ++ enc for every behaviour of the underlying writer (all failure offsets), io::Error maps to SavefileError::IOError, no panic; Kani: short writes (1 byte/call) and chunked reads (1 and 3 bytes/call) give identical bytes/values on the real container code.",
     level_note="Hard-failure schedules through save_impl and derive output are not decided by Kani (CBMC does not terminate on io::Error paths); crypto wrapper not covered.",
     technique="Verus error-path postconditions; Kani chunking harnesses", trusted_base=TB)
@@ -81,6 +81,11 @@ add("C11", ["v_layout"], ["abi_callee_ref", "abi_caller_ref"],
     level_text="layout_compatible(a,b) ==> same_layout(a,b) and arg_layout_compatible == Ok(true) ==> identical native layout or trait-like, for all schema pairs (Verus, unbounded); an argument travels as a pointer iff its mask bit is set (Kani on trampolines).",
     level_note="Mask computation in analyze_and_create and truthfulness of recorded layout facts not covered; other compilers not decidable here.",
     technique="Verus contracts on extracted layout_compatible family", trusted_base=TB)
+add("C14", ["v_crypto"], [],
+    level_text="CryptoReader::read (real text, real block size) verified for all inputs, chunkings and buffer sizes against the frame contract: plaintext is handed out only from frames read completely, with a declared length within bounds, that authenticated under the next nonce, in order; a short count only at a clean end between frames; no panic, no overflow, no out-of-bounds. load_encrypted_file: key == SHA-256 of exactly the password bytes, missing file / short nonce are errors, no reachable panic. Relative to the IDEAL-AEAD contract for ring (unforgeability and SHA-256 collision resistance are assumptions).",
+    level_note="Not covered: CryptoWriter::{write,flush} (local &mut aliasing outside Verus' subset), RandomNonceSequence::advance, termination of read under endless Interrupted. The property's 'any modification yields an error' follows from the contract only under the ideal-AEAD assumption.",
+    technique="Verus function contract + loop invariants on the extracted CryptoReader::read; ideal-AEAD environment", trusted_base=TB,
+    assumptions=["ideal AEAD (ring AES-256-GCM): a chunk opens under (key, nonce) iff it is exactly what was sealed", "SHA-256 collision resistance", "std::fs::File modelled as an in-memory stream"])
 add("C13", ["v_diff", "v_schemacodec"], [],
     level_text="Schema::serialize / Schema::deserialize and all component codecs verified against enc_schema / dec_schema specifications for all schema trees and all inputs (Verus, unbounded, real function text; termination included); reflexivity and completeness of schema comparison as lemmas over the diff_schema <==> wire_equiv contract.",
     level_note="Method tables (AbiTraitDefinition codec) assumed; format-0 reading pinned to the dec specification only (no independent old file); Vec/String extensionality assumed.",
